@@ -19,7 +19,171 @@ const MAGIC_PREFIXES: [&[u8]; 14] = [
     &[0x30, 0x82], &[0x30, 0x80], &[0x04, 0x20], &[0x16, 0x03, 0x01], &[0x16, 0x03, 0x03, 0x00], &[0x0a, 0x0a], &[0xfa, 0xfa, 0x00, 0x00],
     b"GET ", b"\x00\x00", &[0xff, 0xff, 0xff, 0xff], &[0x44, 0x4f, 0x57, 0x4e, 0x47, 0x52, 0x44, 0x01], &[0x02, 0x01], &[0x00, 0x17, 0x00, 0x00], &[0x01],
 ];
+/// lengths that are also registered code points (extension types, handshake types, ...): an item of
+/// such a length inside a length-prefixed list reads as "type = n" under another grammar
+pub const CODE_POINT_LENS: [usize; 16] = [13, 43, 47, 10, 16, 5, 35, 41, 42, 44, 45, 50, 51, 18, 21, 27];
+
+/// a self-describing item of total length n: [u16 = n-2][n-2 bytes], the body optionally again a
+/// u16-length-prefixed vector of 16-bit values (followed by 0 or 1 slack bytes). Under a grammar that
+/// reads the enclosing list as (type, length, data) triples such an item is a well-formed element.
+pub fn tlv_item(r: &mut Rng, max: usize) -> Vec<u8> {
+    if max < 4 {
+        return r.bytes(max);
+    }
+    let n = if r.chance(3, 4) {
+        let c = *r.pick(&CODE_POINT_LENS);
+        if c <= max {
+            c
+        } else {
+            max
+        }
+    } else {
+        r.usize(4, max.min(300))
+    };
+    let mut v = Vec::with_capacity(n);
+    v.extend_from_slice(&((n - 2) as u16).to_be_bytes());
+    let body = n - 2;
+    if body >= 2 && r.chance(2, 3) {
+        let inner = if (body - 2) % 2 == 0 || r.chance(1, 3) { body - 2 } else { body - 3 };
+        v.extend_from_slice(&(inner as u16).to_be_bytes());
+        for _ in 0..inner / 2 {
+            v.extend_from_slice(&(if r.bool() { *r.pick(&[0x0403u16, 0x0804, 0x0401, 0x0503, 0x0201, 0x0304, 0x0303, 0x001d]) } else { r.u16() }).to_be_bytes());
+        }
+        while v.len() < n {
+            v.push(r.u8());
+        }
+    } else {
+        v.extend(r.bytes(body));
+    }
+    v.truncate(n);
+    v
+}
+
+/// An SSL 2.0 CLIENT-HELLO exactly as old clients send it (RFC 6101 appendix E / RFC 5246 E.2):
+/// 2-byte record length with the MSB set, msg type 1, version, three 16-bit lengths
+/// (cipher specs, a multiple of 3; session id, 0 or 16; challenge, 16..32) and the data, all
+/// mutually consistent. `pad` bytes follow (so that, read as a TLS record, it can be complete).
+pub fn sslv2_client_hello(r: &mut Rng, pad: usize) -> Vec<u8> {
+    let version = *r.pick(&[0x0002u16, 0x0300, 0x0301, 0x0302, 0x0303, 0x0304]);
+    let a = 3 * r.usize(1, 100);
+    let b = if r.bool() { 0 } else { 16 };
+    let c = r.usize(16, 32);
+    let total = 9 + a + b + c;
+    let mut v = Vec::with_capacity(2 + total + pad);
+    v.extend_from_slice(&(0x8000u16 | total as u16).to_be_bytes());
+    v.push(1);
+    v.extend_from_slice(&version.to_be_bytes());
+    v.extend_from_slice(&(a as u16).to_be_bytes());
+    v.extend_from_slice(&(b as u16).to_be_bytes());
+    v.extend_from_slice(&(c as u16).to_be_bytes());
+    v.extend(r.bytes(a + b + c));
+    v.extend(r.bytes(pad));
+    v
+}
+
+/// the first bytes other protocols put on a TLS port (SSLv2 hello, HTTP, SSH, SMTP, a DTLS record,
+/// a TLS record nested in application data): framing rules apply to them like to any other bytes
+pub fn foreign_opener(r: &mut Rng, pad: usize) -> Vec<u8> {
+    let mut v: Vec<u8> = match r.below(8) {
+        0 | 1 | 2 => return sslv2_client_hello(r, pad),
+        3 => b"GET / HTTP/1.1\r\nHost: example.com\r\n\r\n".to_vec(),
+        4 => b"SSH-2.0-OpenSSH_9.6\r\n".to_vec(),
+        5 => b"EHLO mail.example.com\r\nSTARTTLS\r\n".to_vec(),
+        6 => {
+            let h = dtls_hdr(r, 0x16);
+            let pl = r.bytes(20);
+            dtls_record(&h, &pl)
+        }
+        _ => {
+            let inner = record(0x16, 0x0303, &[0, 0, 0, 0]);
+            record(0x17, 0x0303, &inner)
+        }
+    };
+    v.extend(r.bytes(pad));
+    v
+}
+
+/// opaque content that is itself a well-formed encoding of some TLS structure (format confusion:
+/// the parsers must treat it as opaque whatever it looks like)
+/// a DER SEQUENCE with a definite length in short (< 128), 0x81 or 0x82 form covering its content exactly;
+/// the content is random bytes or again DER
+pub fn der_seq(r: &mut Rng, max: usize) -> Vec<u8> {
+    let room = max.saturating_sub(4);
+    let n = match r.below(4) {
+        0 => r.usize(0, room.min(127)),
+        1 => r.usize(128.min(room), room.min(255)),
+        2 => r.usize(256.min(room), room.min(4000)),
+        _ => r.usize(0, room.min(40)),
+    };
+    let mut content = if n >= 8 && r.chance(1, 3) {
+        let mut c = der_seq(r, n);
+        c.resize(n, 0x05);
+        c
+    } else {
+        r.bytes(n)
+    };
+    let mut v = vec![*r.pick(&[0x30u8, 0x30, 0x30, 0x31, 0xa0, 0x04])];
+    if n < 128 && r.chance(3, 4) {
+        v.push(n as u8);
+    } else if n < 256 && r.bool() {
+        v.extend_from_slice(&[0x81, n as u8]);
+    } else {
+        v.extend_from_slice(&[0x82, (n >> 8) as u8, n as u8]);
+    }
+    v.append(&mut content);
+    v
+}
+
+/// `inner` behind a length prefix of 1, 2 or 3 bytes that covers it exactly
+pub fn prefixed(width: usize, inner: &[u8]) -> Vec<u8> {
+    let n = inner.len();
+    let mut v: Vec<u8> = match width {
+        1 => vec![n as u8],
+        2 => vec![(n >> 8) as u8, n as u8],
+        _ => vec![(n >> 16) as u8, (n >> 8) as u8, n as u8],
+    };
+    v.extend_from_slice(inner);
+    v
+}
+
+pub fn structured(r: &mut Rng, max: usize) -> Vec<u8> {
+    let v = match r.below(9) {
+        0 | 1 => tlv_item(r, max),
+        6 => der_seq(r, max),
+        7 | 8 => {
+            // a DER value (an OCSP response, a certificate, a DN) behind a u24 / u16 / u8 length prefix
+            let w = *r.pick(&[3usize, 3, 2, 1]);
+            let lim = [0usize, 255, 65535, 1 << 20][w].min(max.saturating_sub(w));
+            let d = der_seq(r, lim);
+            prefixed(w, &d[..d.len().min(lim)])
+        }
+        2 => {
+            // u8-length-prefixed, self-consistent
+            let n = r.usize(1, max.min(255).max(1));
+            let mut v = vec![(n - 1) as u8];
+            v.extend(r.bytes(n - 1));
+            v
+        }
+        3 => hs(r, TINY).to_bytes(),
+        4 => exts_bytes(&ext_list(r, TINY, 3)),
+        _ => {
+            let ty = *r.pick(&[0x14u8, 0x15, 0x16, 0x17, 0x18]);
+            let ver = version(r);
+            let pl = r.bytes(6);
+            record(ty, ver, &pl)
+        }
+    };
+    if v.len() <= max {
+        v
+    } else {
+        v[..max].to_vec()
+    }
+}
+
 pub fn opaque(r: &mut Rng, max: usize) -> Vec<u8> {
+    if max >= 4 && r.chance(1, 12) {
+        return structured(r, max);
+    }
     let n = r.size(max);
     let mut v = r.bytes(n);
     if n > 0 && r.chance(1, 8) {
@@ -183,7 +347,54 @@ pub fn u16_list(r: &mut Rng, max: usize) -> Vec<u16> {
     v
 }
 
+/// what a real TLS 1.3 stack sends: legacy version 0303, null compression, TLS 1.3 suites, and a
+/// well-formed extension list with supported_versions / key_share (conjunctions of meaningful values)
+pub fn tls13_exts_server(r: &mut Rng) -> Vec<u8> {
+    let v = *r.pick(&[0x0304u16, 0x0304, 0x7f1c, 0x7f17, 0x7f16, 0x7f12, 0x0303]);
+    let mut l = vec![AExt::SupportedVersionsServer(v)];
+    if r.chance(2, 3) {
+        let kl = if r.bool() { 2 } else { 36 };
+        let ks = r.bytes(kl);
+        l.push(AExt::KeyShare(ks));
+    }
+    if r.chance(1, 4) {
+        l.push(AExt::Cookie(r.bytes(8)));
+    }
+    if r.chance(1, 4) {
+        l.push(ext(r, TINY));
+    }
+    if r.bool() {
+        l.reverse();
+    }
+    exts_bytes(&l)
+}
+pub fn tls13_exts_client(r: &mut Rng) -> Vec<u8> {
+    let mut l = vec![
+        AExt::SupportedVersionsClient(vec![0x0304, 0x0303]),
+        AExt::SupportedGroups(vec![0x001d, 0x0017]),
+        AExt::SignatureAlgorithms(vec![0x0403, 0x0804]),
+        AExt::KeyShare(r.bytes(38)),
+        AExt::PskExchangeModes(vec![1]),
+    ];
+    if r.chance(1, 3) {
+        l.insert(0, AExt::Sni(vec![(0, b"example.com".to_vec())]));
+    }
+    if r.chance(1, 3) {
+        l.push(AExt::PreSharedKey(r.bytes(40)));
+    }
+    exts_bytes(&l)
+}
 pub fn client_hello(r: &mut Rng, sz: Sz) -> ACh {
+    if r.chance(1, 8) {
+        return ACh {
+            version: 0x0303,
+            random: random32(r),
+            sid: if r.bool() { r.bytes(32) } else { vec![] },
+            ciphers: vec![0x1301, 0x1302, 0x1303, 0x00ff],
+            comp: vec![0],
+            ext: Some(tls13_exts_client(r)),
+        };
+    }
     ACh {
         version: version(r),
         random: random32(r),
@@ -195,6 +406,17 @@ pub fn client_hello(r: &mut Rng, sz: Sz) -> ACh {
 }
 /// version in {0300, 0301, 0302, 0303}; SSLv3 has no extension block
 pub fn server_hello(r: &mut Rng, sz: Sz) -> ASh {
+    if r.chance(1, 6) {
+        // RFC 8446 ServerHello / HelloRetryRequest as sent on the wire (legacy layout)
+        return ASh {
+            version: 0x0303,
+            random: if r.bool() { HRR_RANDOM.to_vec() } else { random32(r) },
+            sid: if r.bool() { r.bytes(32) } else { vec![] },
+            cipher: *r.pick(&[0x1301u16, 0x1302, 0x1303, 0x1304, 0x1305, 0xc02f]),
+            comp: if r.chance(5, 6) { 0 } else { 1 },
+            ext: Some(tls13_exts_server(r)),
+        };
+    }
     let v = *r.pick(&[0x0300u16, 0x0301, 0x0302, 0x0303, 0x0303]);
     ASh {
         version: v,
@@ -237,7 +459,9 @@ pub fn hs_variant(r: &mut Rng, sz: Sz, variant: usize) -> AHs {
             AHs::CertificateRequest {
                 types: opaque(r, sz.list.min(255)),
                 sigalgs: if r.bool() { Some(u16_list(r, sz.list)) } else { None },
-                cas: (0..n).map(|_| opaque(r, sz.opaque.min(65535))).collect(),
+                // every name a self-describing (length, body) item whose total length is a code point: the
+                // list then also reads as a well-formed (type, length, data) list
+                cas: if r.chance(1, 5) { (0..n.max(1)).map(|_| tlv_item(r, sz.opaque.min(65535).max(4))).collect() } else { (0..n).map(|_| opaque(r, sz.opaque.min(65535))).collect() },
             }
         }
         10 => AHs::ServerDone(if r.chance(2, 3) { vec![] } else { opaque(r, sz.opaque) }),
@@ -245,8 +469,8 @@ pub fn hs_variant(r: &mut Rng, sz: Sz, variant: usize) -> AHs {
         12 => AHs::ClientKeyExchange(opaque(r, sz.opaque)),
         13 => AHs::Finished(if r.bool() { r.bytes(12) } else { opaque(r, sz.opaque) }),
         14 => AHs::CertificateStatus {
-            ty: r.u8b(),
-            blob: opaque(r, sz.opaque),
+            ty: if r.bool() { 1 } else { r.u8b() },
+            blob: if r.chance(1, 3) { der_seq(r, sz.opaque.max(8)) } else { opaque(r, sz.opaque) },
         },
         15 => AHs::NextProtocol {
             proto: opaque(r, sz.opaque.min(255)),
@@ -276,7 +500,23 @@ pub fn ext_variant(r: &mut Rng, sz: Sz, k: usize) -> AExt {
             AExt::Sni((0..n).map(|_| (if r.chance(3, 4) { 0 } else { r.u8b() }, name(r, sz.opaque))).collect())
         }
         2 => AExt::MaxFragmentLength(r.u8b()),
-        3 => AExt::StatusRequest(if r.chance(1, 4) { None } else { Some((r.u8b(), opaque(r, sz.opaque))) }),
+        3 => AExt::StatusRequest(match r.below(8) {
+            0 | 1 => None,
+            // OCSPStatusRequest: responder_id_list<0..2^16-1>, request_extensions<0..2^16-1> (both DER inside)
+            2 => {
+                let ids = if r.bool() { vec![] } else { let d = der_seq(r, 60); prefixed(2, &d) };
+                let mut b = prefixed(2, &ids);
+                let ex = if r.bool() { vec![] } else { der_seq(r, 60) };
+                b.extend(prefixed(2, &ex));
+                Some((1, b))
+            }
+            // the RFC 8446 CertificateStatus shape inside the extension: one u24-prefixed DER OCSPResponse
+            3 | 4 => {
+                let d = der_seq(r, sz.opaque.max(8));
+                Some((if r.chance(3, 4) { 1 } else { r.u8b() }, prefixed(3, &d)))
+            }
+            _ => Some((r.u8b(), opaque(r, sz.opaque))),
+        }),
         4 => AExt::SupportedGroups(u16_list(r, sz.list * 2)),
         5 => AExt::EcPointFormats(opaque(r, sz.list.min(255))),
         6 => AExt::SignatureAlgorithms(u16_list(r, sz.list * 2)),
